@@ -165,6 +165,16 @@ LIMKEYS = {
 ALLKEYS = ["vi", "vo", "vd", "ii", "io", "pi", "po", "pl", "tr", "tp"]
 
 
+def applicable_limits(cls, name, rng, p=0.3):
+    """random limits on the keys that apply to the kind only (C12: the document stores those)"""
+    lim = random_limits(cls, name, rng, p)
+    if not lim:
+        return None
+    keys = LIMKEYS.get(cls, ALLKEYS)
+    lim = {k: v for k, v in lim.items() if k in keys}
+    return lim or None
+
+
 def random_limits(cls, name, rng, p=0.3):
     """random limit dictionary: any subset of the applicable keys (and sometimes a key that does not
     apply), [min, max] in the range of the quantity, either sign convention"""
